@@ -1,0 +1,23 @@
+//go:build verif && amd64 && go1.17 && !go1.27
+// +build verif,amd64,go1.17,!go1.27
+
+package verifx
+
+import (
+	"github.com/bytedance/sonic/internal/encoder/vars"
+)
+
+// The entry points of the encoder program cache (internal/encoder/vars/cache.go), so that the verification harness can
+// drive the real key selection (type, pointer-value flag) with fabricated type descriptors and a stub compiler.
+
+func EncFindOrCompile(vt *GoType, pv bool, compiler func(*GoType, ...interface{}) (interface{}, error)) (interface{}, error) {
+	return vars.FindOrCompile(vt, pv, compiler)
+}
+
+func EncGetProgram(vt *GoType, pv bool) interface{} { return vars.GetProgram(vt, pv) }
+
+func EncComputeProgram(vt *GoType, compute func(*GoType, ...interface{}) (interface{}, error), pv bool) (interface{}, error) {
+	return vars.ComputeProgram(vt, compute, pv)
+}
+
+func EncResetAllProgramCaches() { vars.ResetProgramCache() }
